@@ -1,11 +1,11 @@
 #!/bin/bash
 # runall.sh [tier] [per-check timeout s]: runs every registered check, prints one line each.
-cd /verif
+cd "$(dirname "$0")/.."
 T=${1:-quick}; TO=${2:-3600}
 for p in C01 C02 C03 C04 C05 C06 C07 C08 C09 C10 C11 C12 C13 C14 C15 C16 C17 C18 C19 C20; do
   s=$(date +%s)
-  timeout $TO ./check.sh $p $T > /tmp/runall_$p.log 2>&1; rc=$?
+  timeout $TO ./check.sh $p $T > /tmp/runall_${T}_$p.log 2>&1; rc=$?
   e=$(date +%s)
-  echo "$p exit=$rc $((e-s))s $(grep -cE '^KNOWN-FINDING' /tmp/runall_$p.log) known $(grep -E '^VIOLATION|^INFRA|^UNCONF' /tmp/runall_$p.log | head -2 | tr '\n' ' ' | cut -c1-160)"
+  echo "$p exit=$rc $((e-s))s $(grep -cE '^KNOWN-FINDING' /tmp/runall_${T}_$p.log) known $(grep -E '^VIOLATION|^INFRA|^UNCONF' /tmp/runall_${T}_$p.log | head -2 | tr '\n' ' ' | cut -c1-160)"
   if [ $rc -eq 124 ]; then pkill -f "bin/gosym check"; pkill z3; fi
 done
